@@ -453,6 +453,36 @@ def rule_val1(A: Analysis, rep):
     rep.expect_min("VAL1", 10)
 
 
+def rule_inc2(A: Analysis, rep):
+    """What include() binds in a COND file belongs to that COND file: the values are created by evaluating the included
+    file for it, or — when a cache of evaluated scopes is filled — handed out as deep copies.  Handing the cached scope's
+    own lists/dicts to several COND files lets an in-place change made by one of them (`BASE_ARGS.append(...)`) show up
+    in the args/options of tasks another file declares, depending on load order."""
+    fi = A.fn(TL + "_run_include")
+    cls_fns = [f for f in A.prog.scan_functions if f.fq.startswith("conductor.parsing.task_loader.TaskLoader.")]
+    stores = []
+    for f in cls_fns:
+        for s in walk_local(f.node):
+            if isinstance(s, (ast.Assign, ast.AugAssign)):
+                for t in (s.targets if isinstance(s, ast.Assign) else [s.target]):
+                    if isinstance(t, ast.Subscript) and norm(t.value) == "self._include_cache":
+                        stores.append((f, s))
+            if isinstance(s, ast.Call) and isinstance(s.func, ast.Attribute) and norm(s.func.value) == "self._include_cache" and s.func.attr in ("update", "setdefault", "__setitem__"):
+                stores.append((f, s))
+    hits = [c for c in walk_local(fi.node) if isinstance(c, ast.Call) and isinstance(c.func, ast.Attribute) and c.func.attr == "update"
+            and norm(c.func.value) == "self._curr_exec_scope" and c.args and "self._include_cache" in A.xtext(c.args[0], fi)]
+    if not hits:
+        raise AnalysisError("INC2: the cache-hit path of _run_include was not found")
+    for c in hits:
+        arg = A.expand(c.args[0], fi)
+        copied = isinstance(arg, ast.Call) and norm(arg.func) in ("copy.deepcopy", "deepcopy")
+        rep.check(not stores or copied, "INC2", "a cached include scope is not shared between COND files", c,
+                  "the cache is never filled (every include() is evaluated afresh)" if not stores else "the cached scope is deep-copied on a hit",
+                  "the include cache is filled (%s) and a hit binds the cached objects themselves: lists and dicts defined by the included file are shared by every COND file that includes it" % (
+                      ", ".join("%s:%d" % (f.name, s.lineno) for f, s in stores)))
+    rep.notes.append("INC2: %d store(s) into _include_cache, %d hit site(s)" % (len(stores), len(hits)))
+
+
 def rule_inc1(A: Analysis, rep):
     fi = A.fn(TL + "_run_include")
     g = A.cfg(fi, "plain")
